@@ -370,6 +370,53 @@ def host_agrees(uh, hraw, normalisable):
     return True
 
 
+# --------------------------------------------------------------------------- watchdog
+class _Abort(BaseException):
+    """raised from SIGALRM; BaseException so that no `except Exception` eats it"""
+
+
+# A parse of a <= 120 character string that is still running after WD_TICK..2*WD_TICK
+# seconds is a catastrophic-backtracking hang: abort it and report it under the time clause
+# instead of hanging the check. [inside parse_url?, evaluation serial, serial at last tick]
+_WD = [False, 0, -1]
+WD_TICK = 5.0
+MAX_ABORTS_PER_TASK = 3
+
+
+def _watchdog(signum, frame):
+    if _WD[0] and _WD[1] == _WD[2]:
+        raise _Abort()
+    _WD[2] = _WD[1]
+
+
+class _Watch:
+    def __enter__(self):
+        self.old = signal.signal(signal.SIGALRM, _watchdog)
+        signal.setitimer(signal.ITIMER_REAL, WD_TICK, WD_TICK)
+
+    def __exit__(self, *exc):
+        signal.setitimer(signal.ITIMER_REAL, 0)
+        signal.signal(signal.SIGALRM, self.old)
+        _WD[0] = False
+        return False
+
+
+def _guarded_parse(s):
+    _WD[0] = True
+    try:
+        return parse_url(s)
+    finally:
+        _WD[0] = False
+
+
+def _aborted(acc, case, sclass, where):
+    acc.counters["aborted_evaluations"] += 1
+    acc.outcomes["aborted/" + sclass] += 1
+    acc.violation("time", {"what": "aborted", "where": where, "scheme": sclass}, case,
+                  observed="one parse of a %d-character string still running after %.0f s" % (len(case["url"]), WD_TICK),
+                  expected="no super-linear running time")
+
+
 # --------------------------------------------------------------------------- one evaluation
 def _scheme_class(scheme):
     if scheme is None:
@@ -381,16 +428,22 @@ def _scheme_class(scheme):
 def check_one(s, acc, obs=None):
     """all enumeration clauses (1)-(3) on one input string"""
     acc.n += 1
+    _WD[1] += 1
     scheme, authority, rpath, rquery, rfrag = rfc_split(s)
     sclass = _scheme_class(scheme)
     case = {"url": s}
     # ---------------- (1) totality
     try:
-        u = parse_url(s)
+        u = _guarded_parse(s)
     except LocationParseError as e:
         acc.outcomes["reject/" + sclass] += 1
         if obs is not None:
             obs["result"] = {"exc": "LocationParseError", "msg": str(e)[:120]}
+        return None
+    except _Abort:
+        _aborted(acc, case, sclass, "parse")
+        if obs is not None:
+            obs["result"] = "aborted"
         return None
     except Exception as e:  # noqa: BLE001 - the point of the clause
         acc.outcomes["crash/" + sclass] += 1
@@ -527,7 +580,10 @@ def normal_form(u, s, sclass, rpath, rquery, rfrag, acc, case):
     # idempotence
     try:
         text = u.url
-        u2 = parse_url(text)
+        u2 = _guarded_parse(text)
+    except _Abort:
+        _aborted(acc, case, sclass, "reparse")
+        return
     except Exception as e:  # noqa: BLE001
         acc.violation("normal-form", {"what": "reparse-raises", "exc": type(e).__name__}, case,
                       observed=e, expected="parse_url(u.url) == u")
@@ -557,6 +613,9 @@ def _w_strings(task):
     else:
         bodies = (head + "".join(t) for n in range(L - HEAD + 1) for t in itertools.product(ALPHABET, repeat=n))
     for body in bodies:
+        if acc.counters["aborted_evaluations"] >= MAX_ABORTS_PER_TASK:
+            acc.counters["tasks_cut_short_after_aborts"] += 1
+            break
         if pi == 0 and body[:2] == "//":
             # identical to the string PREFIXES[3] + body[2:], which is enumerated there
             acc.counters["skipped_same_string_as_slashslash_prefix"] += 1
@@ -600,6 +659,9 @@ def _w_grammar(task):
     acc = Acc()
     scheme, ui, host = G_SCHEME[si], G_USERINFO[ui_i], G_HOST[hi]
     for port, path, query, frag in itertools.product(G_PORT, G_PATH, G_QUERY, G_FRAGMENT):
+        if acc.counters["aborted_evaluations"] >= MAX_ABORTS_PER_TASK:
+            acc.counters["tasks_cut_short_after_aborts"] += 1
+            break
         s = build_url(scheme, ui, host, port, path, query, frag)
         u = check_one(s, acc)
         if u is not None and not acc.samples:
@@ -613,19 +675,16 @@ def _w_dots(task):
     acc = Acc()
     prefix = DOT_PREFIXES[pi]
     if head is None:  # the strings shorter than a head
-        for n in range(HEAD):
-            for t in itertools.product(DOT_ALPHABET, repeat=n):
-                check_one(prefix + "".join(t), acc)
+        bodies = ("".join(t) for n in range(HEAD) for t in itertools.product(DOT_ALPHABET, repeat=n))
     else:
-        for n in range(D - HEAD + 1):
-            for t in itertools.product(DOT_ALPHABET, repeat=n):
-                check_one(prefix + head + "".join(t), acc)
+        bodies = (head + "".join(t) for n in range(D - HEAD + 1) for t in itertools.product(DOT_ALPHABET, repeat=n))
+    for body in bodies:
+        if acc.counters["aborted_evaluations"] >= MAX_ABORTS_PER_TASK:
+            acc.counters["tasks_cut_short_after_aborts"] += 1
+            break
+        check_one(prefix + body, acc)
     acc.counters["dot_mix_urls"] += acc.n
     return acc
-
-
-class _Abort(BaseException):
-    """raised from SIGALRM; BaseException so that no `except Exception` eats it"""
 
 
 def _on_alarm(signum, frame):
@@ -698,6 +757,8 @@ def _w_time(task):
         times, bad_exc = measure(unit, template)
         acc.n += 1
         acc.counters["timed_parses"] += 3 * len(times)
+        if len(times) < len(T_SIZES) or None in times.values():
+            acc.counters["time_cases_cut_short"] += 1  # only ever together with a time violation
         case = {"kind": "time", "unit": unit, "template": template}
         if bad_exc:
             acc.violation("totality", {"what": "other-exception", "exc": bad_exc, "scheme": "long-input"}, case,
@@ -718,7 +779,10 @@ def _w_time(task):
 
 
 def _dispatch(task):
-    return _W[task[0]](task)
+    if task[0] == "T":
+        return _w_time(task)  # has its own alarm
+    with _Watch():
+        return _W[task[0]](task)
 
 
 _W = {"S": _w_strings, "G": _w_grammar, "D": _w_dots, "T": _w_time}
@@ -837,7 +901,8 @@ def run(ctx):
             % (len(T_UNITS), len(T_TEMPLATES)),
         ],
         vacuity=[
-            (exhaustive, "enumeration incomplete: strings %d(+%d) of %d, grammar %d of %d"
+            # a task is cut short only after reporting aborted (hanging) parses: a finding, not a broken check
+            (exhaustive or c["aborted_evaluations"] > 0, "enumeration incomplete: strings %d(+%d) of %d, grammar %d of %d"
              % (c["strings_enumerated"], c["skipped_same_string_as_slashslash_prefix"], n_strings, c["grammar_urls"], n_grammar)),
             (accepted > 1000 and rejected > 1000, "accept (%d) and reject (%d) must both be observed" % (accepted, rejected)),
             (len(acc.outcomes) >= 30, "too few outcome classes: %d" % len(acc.outcomes)),
@@ -847,7 +912,8 @@ def run(ctx):
             (c["either_stray_percent_component"] > 0, "stray-% region never reached"),
             (c["paths_with_dot_segments"] > 100, "dot-segment removal hardly exercised"),
             (c["nontrivial_accepted_with_host"] >= 2, "no non-trivial case"),
-            (n_time == len(T_UNITS) * len(T_TEMPLATES) and c["timed_parses"] >= 9 * n_time * 0.9,
+            (n_time == len(T_UNITS) * len(T_TEMPLATES)
+             and c["timed_parses"] >= 3 * len(T_SIZES) * (n_time - c["time_cases_cut_short"]),
              "time clause did not run: %d cases, %d parses" % (n_time, c["timed_parses"])),
         ])
 
@@ -867,6 +933,7 @@ def replay(case):
         # CPU seconds are not part of the (reproducible) observation
         return {"verdicts": out, "violations": acc.viol}
     obs = {}
-    check_one(case["url"], acc, obs)
+    with _Watch():
+        check_one(case["url"], acc, obs)
     obs["violations"] = acc.viol
     return obs
